@@ -130,6 +130,8 @@ static void hist_str(const hist_t *h, char *out, size_t cap) {
 }
 
 /* ---------------------------------------------------------------- harness-side model (boring on purpose) */
+/* the three settings are the caller's: "rfc=.. mask=.. tld=.." as the object holds them */
+static void settings_of(lib_t *l, void *o, char *out, size_t cap) { char k[1024]; l->canon(o, k, sizeof k); char *q = strstr(k, " utf8="); if (q) *q = 0; snprintf(out, cap, "%s", k); }
 typedef struct { int confirmed; int rfc, tld, mask; int setup_ok; int nfaults; int utf8_pending_fail; } model_t;
 static void model_init(model_t *m) { m->confirmed = -1; m->rfc = 3; m->tld = 1; m->mask = 0; m->setup_ok = 0; m->utf8_pending_fail = 0; }
 
@@ -241,7 +243,9 @@ static void apply(run_t *r, op_t o, const hist_t *h, int check) {
         case OP_EMAIL: case OP_EMAILF: {
             if (o.t == OP_EMAILF) l->inject(IDNCODES[o.b], o.c);
             const char *a = POOL[o.a];
+            char set0[128], set1[128]; if (check) settings_of(l, obj, set0, sizeof set0);
             int ret = l->is_email(obj, a, plen(o.a)); MC_ADD(C_LIBCALLS, 1);
+            if (check) { settings_of(l, obj, set1, sizeof set1); if (strcmp(set0, set1)) violation_h("email", "email:validation-changed-the-caller's-settings", h, "[%s] before eav_is_email: %s ; after: %s", l->name, set0, set1); }
             int consumed = !l->inject_pending();
             l->disarm();   /* the call may not have converted at all */
             if (check) {
@@ -551,6 +555,42 @@ static void policy_shard(long shard, void *arg) {
     }
 }
 
+/* ---------------------------------------------------------------- C19, E-INPUT part: a failing conversion on EVERY corpus domain
+ * The fault runs above inject into a handful of pool addresses; what the library does around a failing conversion may depend on the domain's content
+ * (a pre-processing step, a copy).  Every address of the IDN-flavoured corpora, mode 6531, tld_check on and off, three environment answers
+ * (none, code without buffer, code with buffer): the ledger must show no block left after eav_free, at most the result record before it; an
+ * injected failure is contained (rejected, IDN error, converter's message, no flag). */
+static int C_FCORPUS;
+static void fault_corpus_sink(const unsigned char *s, size_t n, void *arg) {
+    (void)arg; static char buf[70100]; if (n + 2 > sizeof buf) return;
+    for (size_t i = 0; i < n; i++) if (!s[i]) return;
+    memcpy(buf, s, n); buf[n] = 0;
+    lib_t *l = &LIB[0];
+    static const int INJ[3][2] = { { -1, 0 }, { 0, 0 }, { 9, 1 } };     /* index into IDNCODES, with buffer */
+    for (int t = 0; t < 2; t++) for (int k = 0; k < 3; k++) {
+        char cfg[64]; snprintf(cfg, sizeof cfg, "faultcorpus tld=%d inj=%d", t, k);
+        mc_current("faultcorpus", cfg, s, n);
+        l->ledger_reset(); l->ctx_reset();
+        void *o = l->new_(0xA5); l->init(o); l->set_rfc(o, 3); l->set_tld(o, t); if (l->setup(o)) exit(2);
+        if (INJ[k][0] >= 0) l->inject(IDNCODES[INJ[k][0]], INJ[k][1]);
+        int r = l->is_email(o, buf, n); int consumed = INJ[k][0] >= 0 && !l->inject_pending(); l->disarm();
+        MC_ADD(C_EVAL, 1); MC_ADD(C_LIBCALLS, 1); MC_ADD(C_FCORPUS, 1);
+        char got[512]; l->outcome(o, r, got, sizeof got);
+        if (consumed) {
+            const char *ms = l->errstr(o);
+            if (strncmp(got, "ret=0 errcode=2 ", 16) || !strstr(got, "v4=0 v6=0 dom=0") || !ms || strcmp(ms, idn2_strerror(IDNCODES[INJ[k][0]])))
+                mc_violation("faultcorpus", "faultcorpus:failure-not-contained", "", cfg, n > MC_CASEMAX ? (const unsigned char *)"" : s, n > MC_CASEMAX ? 0 : n, "injected idn code %d: %s (message \"%s\")", IDNCODES[INJ[k][0]], got, ms ? ms : "(null)");
+        }
+        if (l->ledger_live() > 1) mc_violation("faultcorpus", "faultcorpus:blocks-live-after-the-call", "", cfg, n > MC_CASEMAX ? (const unsigned char *)"" : s, n > MC_CASEMAX ? 0 : n, "%d blocks live after eav_is_email (at most the result record may be); %s", l->ledger_live(), got);
+        l->free_(o);
+        if (l->ledger_live() != 0) mc_violation("faultcorpus", "faultcorpus:leak", "", cfg, n > MC_CASEMAX ? (const unsigned char *)"" : s, n > MC_CASEMAX ? 0 : n, "%d block(s) still allocated after eav_free (%s conversion); %s", l->ledger_live(), consumed ? "failed" : INJ[k][0] >= 0 ? "no" : "natural", got);
+        if (l->ledger_double_free() || l->ledger_foreign_free()) mc_violation("faultcorpus", "faultcorpus:double-or-foreign-free", "", cfg, n > MC_CASEMAX ? (const unsigned char *)"" : s, n > MC_CASEMAX ? 0 : n, "double=%d foreign=%d", l->ledger_double_free(), l->ledger_foreign_free());
+        l->delete_(o);
+    }
+    MC_ADD(C_NONTRIV, 1);
+}
+static void fault_corpus_shard(long shard, void *arg) { (void)arg; corpus_run(CURPH, shard, fault_corpus_sink, NULL); }
+
 /* ---------------------------------------------------------------- C13: every ordered pair of a set of addresses on one object
  * (hidden state keyed by something weaker than the address itself: a prefix, a hash, a length) */
 static char PAIRADDR[1400][24]; static int NPAIR; static char *PAIRWANT[3][1400];
@@ -608,6 +648,9 @@ static void xpairs_build(void) {
         "", "@", "x@", "@a.com", "x", "x@@a.com", "abcdefghijklmnopqrstuvwxyzabcdefghijklmnopqrstuvwxyzabcdefghijklm@a.com",
         "x@abcdefghijklmnopqrstuvwxyzabcdefghijklmnopqrstuvwxyzabcdefghijklm.com" };
     for (unsigned i = 0; i < sizeof OTHER / sizeof OTHER[0]; i++) xp_add(OTHER[i]);
+    /* one address per TLD class present in the shipped table (a predecessor of every class: .biz, .arpa, .museum ...) */
+    if (!NPOL) { if (rt_load()) exit(2); policy_build(); }
+    for (int i = 0; i < NPOL; i++) xp_add(POLADDR[i]);
     lib_t *l = &LIB[0];
     for (int m = 0; m < 4; m++) for (int t2 = 0; t2 < 2; t2++) for (int i = 0; i < NXP; i++) {
         l->ledger_reset(); l->ctx_reset(); lib_restore_statics(0);
@@ -617,9 +660,11 @@ static void xpairs_build(void) {
     }
 }
 static int C_XPAIRS;
-static void xpair_one(int i, int j, int c1, int c2, int same_object) {
-    lib_t *l = &LIB[0]; int m1 = c1 >> 1, t1 = c1 & 1, m2 = c2 >> 1, t2 = c2 & 1;
-    l->ledger_reset(); l->ctx_reset(); lib_restore_statics(0);
+static void xpair_one_lib(int li, int i, int j, int c1, int c2, int same_object);
+static void xpair_one(int i, int j, int c1, int c2, int same_object) { for (int li = 0; li < NLIB; li++) xpair_one_lib(li, i, j, c1, c2, same_object); }
+static void xpair_one_lib(int li, int i, int j, int c1, int c2, int same_object) {
+    lib_t *l = &LIB[li]; int m1 = c1 >> 1, t1 = c1 & 1, m2 = c2 >> 1, t2 = c2 & 1;
+    l->ledger_reset(); l->ctx_reset(); lib_restore_statics(li);
     void *o1 = l->new_(0xA5); l->init(o1); l->set_rfc(o1, m1); l->set_tld(o1, t1); if (l->setup(o1)) exit(2);
     void *o2 = o1;
     if (!same_object) { o2 = l->new_(0x5A); l->init(o2); l->set_rfc(o2, m2); l->set_tld(o2, t2); if (l->setup(o2)) exit(2); }
@@ -631,7 +676,7 @@ static void xpair_one(int i, int j, int c1, int c2, int same_object) {
     MC_ADD(C_EVAL, 1); MC_ADD(C_LIBCALLS, 2); MC_ADD(C_XPAIRS, 1);
     if (strcmp(got, XPWANT[m2][t2][j]))
         mc_violation("xpairs", same_object ? "xpairs:outcome-depends-on-the-previous-call(same-object,mode-switch)" : "xpairs:outcome-depends-on-a-call-on-another-object", "", cfg, XP[j], strlen(XP[j]),
-                     "after \"%s\" in mode %d (tld_check %d): mode %d (tld_check %d) gives %s ; fresh library state: %s", XP[i], m1, t1, m2, t2, got, XPWANT[m2][t2][j]);
+                     "[%s] after \"%s\" in mode %d (tld_check %d): mode %d (tld_check %d) gives %s ; fresh library state (%s): %s", l->name, XP[i], m1, t1, m2, t2, got, LIB[0].name, XPWANT[m2][t2][j]);
     l->free_(o1); l->delete_(o1); if (!same_object) { l->free_(o2); l->delete_(o2); }
 }
 static void xpairs_shard(long shard, void *arg) {
@@ -658,24 +703,31 @@ static void polpairs_build(void) {
         l->free_(o); l->delete_(o);
     }
 }
-static void polpair_one(int i, int j, int m, int k) {
-    lib_t *l = &LIB[0];
-    l->ledger_reset(); l->ctx_reset(); lib_restore_statics(0);
+static void polpair_one_lib(int li, int i, int j, int m, int k);
+static void polpair_one(int i, int j, int m, int k) { for (int li = 0; li < NLIB; li++) polpair_one_lib(li, i, j, m, k); }
+static void polpair_one_lib(int li, int i, int j, int m, int k) {
+    lib_t *l = &LIB[li];
+    l->ledger_reset(); l->ctx_reset(); lib_restore_statics(li);
     void *o = l->new_(0xA5); l->init(o); l->set_rfc(o, m); l->set_tld(o, 1); l->set_mask(o, PMASKV[k]); if (l->setup(o)) exit(2);
     char cfg[96]; snprintf(cfg, sizeof cfg, "polpair first=%d m=%d k=%d", i, m, k);
     mc_current("polpairs", cfg, POLADDR[j], strlen(POLADDR[j]));
+    char s0[128], s1[128]; settings_of(l, o, s0, sizeof s0);
     l->is_email(o, XP[i], strlen(XP[i]));
     int r = l->is_email(o, POLADDR[j], strlen(POLADDR[j])); char got[512]; l->outcome(o, r, got, sizeof got);
+    settings_of(l, o, s1, sizeof s1);
     MC_ADD(C_EVAL, 1); MC_ADD(C_LIBCALLS, 2); MC_ADD(C_POLPAIRS, 1);
+    if (strcmp(s0, s1)) mc_violation("polpairs", "polpairs:validation-changed-the-caller's-settings", "", cfg, POLADDR[j], strlen(POLADDR[j]), "[%s] settings before the two calls: %s ; after: %s (first address \"%s\")", l->name, s0, s1, XP[i]);
     if (strcmp(got, POLWANT[m][k][j]))
         mc_violation("polpairs", "polpairs:policy-outcome-depends-on-the-previous-call", "", cfg, POLADDR[j], strlen(POLADDR[j]),
-                     "mode %d, allow_tld 0x%03x, after \"%s\": %s ; fresh object: %s", m, PMASKV[k], XP[i], got, POLWANT[m][k][j]);
+                     "[%s] mode %d, allow_tld 0x%03x, after \"%s\": %s ; fresh object (%s): %s", l->name, m, PMASKV[k], XP[i], got, LIB[0].name, POLWANT[m][k][j]);
     l->free_(o); l->delete_(o);
 }
 static void polpairs_shard(long shard, void *arg) { (void)arg; int i = (int)shard; for (int j = 0; j < NPOL; j++) for (int m = 0; m < 4; m++) for (int k = 0; k < NPMASK; k++) polpair_one(i, j, m, k); }
 
 static int do_replay(void) {
     mc_replay_t rp; if (mc_load_replay(mc_replay, &rp)) return 2;
+    if (!strcmp(rp.sub, "faultcorpus")) { mc_replay_hit = 0; fault_corpus_sink(rp.in, (size_t)rp.len, NULL);
+        printf("replay %s: %s\n", mc_replay, mc_replay_hit ? "VIOLATION reproduced" : "no violation"); return mc_replay_hit ? 1 : 0; }
     if (!strcmp(rp.sub, "polpairs")) {
         xpairs_build(); polpairs_build(); mc_replay_hit = 0; int j = -1; char a[MC_CASEMAX + 1]; memcpy(a, rp.in, (size_t)rp.len); a[rp.len] = 0;
         for (int k = 0; k < NPOL; k++) if (!strcmp(POLADDR[k], a)) j = k;
@@ -728,7 +780,7 @@ int main(int argc, char **argv) {
     mc_driver = PROP;
     C_STATES = mc_counter("states"); C_TRANS = mc_counter("transitions"); C_REPLAYS = mc_counter("histories_replayed");
     C_EMAILT = mc_counter("email_transitions_compared_with_fresh_object"); C_LIBCALLS = mc_counter("library_calls");
-    C_FAULTRUNS = mc_counter("fault_runs"); C_XPAIRS = mc_counter("cross_mode_pairs"); C_POLPAIRS = mc_counter("policy_pairs"); mc_counter("bfs_depth_at_fixpoint"); mc_counter("distinct_email_outcomes"); mc_counter("frontier_left");
+    C_FAULTRUNS = mc_counter("fault_runs"); C_XPAIRS = mc_counter("cross_mode_pairs"); C_FCORPUS = mc_counter("fault_corpus_calls"); C_POLPAIRS = mc_counter("policy_pairs"); mc_counter("bfs_depth_at_fixpoint"); mc_counter("distinct_email_outcomes"); mc_counter("frontier_left");
     build_long_pool();
     { static const int Q[13] = { 0, 1, 2, 3, 4, 5, 6, 7, 16, 17, 18, 20, 21 }; if (!mc_thorough) { for (int i = 0; i < 13; i++) PIDX[i] = Q[i]; NPOOL = 13; } }
     if (mc_thorough) { NPOOL = 22; NMASK = 4; NPOISON = 4; }
@@ -748,10 +800,13 @@ int main(int argc, char **argv) {
     if (!strcmp(PROP, "C15")) { mc_parallel("eav_setup over rfc value classes x prior mode", 1, setup_values, NULL); return mc_finish(); }
     mc_parallel(CTXFAIL ? "BFS to fixpoint (idnkit build, create/initialize failures as transitions)" : FAULTS ? "BFS to fixpoint with IDN fault transitions (<=2 faults per history)" : "BFS to fixpoint over the API menu", 1, bfs, NULL);
     if (!strcmp(PROP, "C13") && !TWO_OBJECTS && MAXDEPTH >= 40) { pairs_build(); mc_parallel("pairs: every ordered pair of the 1296 addresses x@b.XY on one object, 3 configurations", NPAIR, pairs_shard, NULL); }
-    if (!strcmp(PROP, "C13") && !TWO_OBJECTS && MAXDEPTH >= 40) { xpairs_build(); char nmx[160]; snprintf(nmx, sizeof nmx, "xpairs: every ordered pair of %d feature addresses x every ordered pair of 8 (mode, tld_check) configurations, on two objects and on one", NXP);
+    if ((!strcmp(PROP, "C13") || (!strcmp(PROP, "C18") && !CTXFAIL && NLIB == 3)) && !TWO_OBJECTS && MAXDEPTH >= 40) { xpairs_build(); char nmx[160]; snprintf(nmx, sizeof nmx, "xpairs: every ordered pair of %d feature addresses x every ordered pair of 8 (mode, tld_check) configurations, on two objects and on one", NXP);
         mc_parallel(nmx, NXP, xpairs_shard, NULL);
         polpairs_build(); snprintf(nmx, sizeof nmx, "polpairs: %d class / form representatives x 14 masks x 4 modes, each right after every one of %d feature addresses on the same object", NPOL, NXP);
         mc_parallel(nmx, NXP, polpairs_shard, NULL); }
+    if (FAULTS) { CORPUS_DEEP = mc_thorough; if (corpus_load()) return 2;
+        static const int PHF[] = { CP_IDN, CP_WHOLEDOM, CP_ALTDOT, CP_LONGIDN, CP_LPXDOM, CP_DEPTH, CP_BYTES };
+        for (unsigned i = 0; i < sizeof PHF / sizeof PHF[0]; i++) { CURPH = PHF[i]; char nmf[96]; snprintf(nmf, sizeof nmf, "fault corpus (3 environment answers x tld on/off): %.40s", corpus_name(CURPH)); mc_parallel(nmf, corpus_shards(CURPH), fault_corpus_shard, NULL); } }
     if (FAULTS) mc_parallel("runs of n validations: single fault at every position x every code x buffer; double faults n<=6", mc_thorough ? 50 : 8, fault_runs, NULL);
     /* distinct non-trivial = states reached (each a distinct canonical object state) */
     if (mc_sh->ctr[C_NONTRIV] == 0 || !FAULTS) mc_sh->ctr[C_NONTRIV] += mc_sh->ctr[C_STATES];
